@@ -220,7 +220,7 @@ func regionOnlyLogs(from, s *ssa.BasicBlock) (bool, string) {
 				return false, "a branch decided by the value has side effects"
 			case *ssa.Call:
 				c, ok := CalleeOf(x.Common())
-				if ok && (isLoggingCallee(c) || c.Pkg == "fmt" || c.Pkg == "builtin") {
+				if ok && (isLoggingCallee(c) || c.Pkg == "fmt" || c.Pkg == "builtin" || isPureValueCallee(c)) {
 					continue
 				}
 				if !ok && isLoggingValue(x.Common().Value, 0) {
@@ -270,8 +270,12 @@ func onlyLogsFn(h *ssa.Function, depth int) bool {
 				case *ssa.Call:
 					c, okc := CalleeOf(x.Common())
 					switch {
-					case okc && (isLoggingCallee(c) || c.Pkg == "fmt" || c.Pkg == "builtin" || c.Pkg == "strings" || c.Pkg == "strconv"):
+					case okc && (isLoggingCallee(c) || c.Pkg == "fmt" || c.Pkg == "builtin" || c.Pkg == "strings" || c.Pkg == "strconv" || isPureValueCallee(c)):
 					case !okc && isLoggingValue(x.Common().Value, 0):
+					case okc && (c.Name == "UnwrapSDKContext" || c.Name == "Logger"):
+						// getting hold of the logger
+					case !okc && loggerPickedByHelper(x.Common().Value, depth):
+						// a log function chosen by a helper that itself only picks among logger methods
 					case x.Common().StaticCallee() != nil && onlyLogsFn(x.Common().StaticCallee(), depth+1):
 					case okc && strings.HasPrefix(c.Name, "Get") && len(x.Common().Args) <= 1:
 						// generated getters
@@ -1622,4 +1626,42 @@ func sliceHasOptionRead(v ssa.Value) ssa.CallInstruction {
 	}
 	walk(v, 0)
 	return found
+}
+
+// isPureValueCallee: conversions and renderings of address values: no state, no failure mode that matters.
+func isPureValueCallee(c Callee) bool {
+	if c.Pkg == "github.com/cosmos/cosmos-sdk/types" {
+		switch c.Recv {
+		case "AccAddress", "ValAddress", "ConsAddress":
+			switch c.Name {
+			case "Bytes", "String", "Empty", "Equals":
+				return true
+			}
+		}
+	}
+	return c.Pkg == "encoding/hex" && (c.Name == "EncodeToString")
+}
+
+// loggerPickedByHelper: the called function value is the result of a module helper that does nothing but
+// obtain a logger and return one of its methods.
+func loggerPickedByHelper(v ssa.Value, depth int) bool {
+	c, ok := canon(v).(*ssa.Call)
+	if !ok {
+		return false
+	}
+	h := c.Call.StaticCallee()
+	if h == nil || !onlyLogsFn(h, depth+1) {
+		return false
+	}
+	if _, isFn := h.Signature.Results().At(0).Type().Underlying().(*types.Signature); h.Signature.Results().Len() != 1 || !isFn {
+		return false
+	}
+	for _, b := range h.Blocks {
+		if r, isR := b.Instrs[len(b.Instrs)-1].(*ssa.Return); isR && len(r.Results) == 1 {
+			if !isLoggingValue(r.Results[0], 0) {
+				return false
+			}
+		}
+	}
+	return true
 }
